@@ -31,6 +31,9 @@ type Thread struct {
 	tag    string
 }
 
+// GoID returns the goroutine id of the thread's current call (0 when idle).
+func (t *Thread) GoID() int64 { t.mu.Lock(); defer t.mu.Unlock(); return t.goid }
+
 // Tag returns the label the harness attached to the thread's current call.
 func (t *Thread) Tag() string { t.mu.Lock(); defer t.mu.Unlock(); return t.tag }
 
